@@ -188,7 +188,7 @@ def known_findings():
         with open(path, encoding="utf-8") as fh:
             for line in fh:
                 line = line.strip()
-                m = re.match(r"known:\s+property=(\S+)\s+key=(\S+)\s*(.*)", line)
+                m = re.match(r'known:\s+property=(\S+)\s+key="([^"]+)"\s*(.*)', line)
                 if m:
                     known[(m.group(1), m.group(2))] = m.group(3)
     return known
